@@ -131,6 +131,10 @@ func (p *polling) onDataRequest(ctx *types.HttpContext) {
 
 	if isBinary && p.Protocol() == 4 {
 		p.OnError("invalid content", nil)
+		// the refused request is still owed a response: without one its handler
+		// (and the connection's goroutine) would wait for ever
+		ctx.SetStatusCode(http.StatusBadRequest)
+		ctx.Write(nil)
 		return
 	}
 
